@@ -47,6 +47,9 @@ CLAIMS['C02'] = dict(cat='proof', ref='DESIGN.md 5/C02',
 CLAIMS['C19'] = dict(cat='proof', ref='DESIGN.md 5/C19',
    text='_is_approximate_multiple: result = (dist(x/ref, Z) < rtol) or (dist(ref/x, Z) < rtol) for all x (incl. 0) and ref != 0, with the lemma that sc.round attains the distance to the integers (LIRA), so this is exactly "within rtol of an integer multiple or divisor"; filter_in_phase keeps exactly the masked elements; find_plateaus: with arrays modelled as functions of the index (slicing, cumsum, concat as assumed contracts) the group id satisfies id_0 = 0 and id_{k+1}-id_k = [|slope_k| > atol] for every k and every length; equal ids <=> no exceeding slope in between (induction base+step); groups kept iff size >= min_n_points, refusals for non-1-d / unsorted input, RuntimeError only from the drift guard; collapse: mean and [min, next_highest(max)) with next_highest(x) > x. Bounded: brute-force reference on the real library (maximal runs, exact rationals).',
    note='Trusted: scipp contracts for round, slicing, cumsum, concat, group, boolean-mask indexing, bins.mean/min/max (assumed; group/mask/bins validated only by the bounded brute-force comparison), numpy nextafter, the induction principle.')
+CLAIMS['C10'] = dict(cat='proof', ref='DESIGN.md 5/C10',
+   text='The real DiskChopper methods are executed on a generic slit (begin < end) and a generic turn K (element-generic arange), for both senses of rotation, symbolic units of angle and frequency: open < close, close-open = slit width/|omega|, the disk angle under the beam at open/close is the leading/trailing edge of that slit up to whole turns, the disk is open throughout and closed just outside (this slit, this turn), turns are exactly -1..n-1 and one period apart; _source_phase_factor: accepted => ratio or inverse within 1e-8 of an integer, integer ratios 1..8 and 1/2..1/4 within 1e-9 never refused, result round(max(q,1)), refusals for non-scalar / non-positive inputs; from_disk_chopper: times = p/f_pulse + opening(turn) in SI for symbolic units, no duplicates and every listed interval an opening (these two are REFUTED: open known findings). Bounded: slit validation on a grid against arcs-on-a-circle, rotating-disk simulation of the real classes.',
+   note='Trusted: element-generic array model (arange/transpose/flatten keep the element set; open and close arrays aligned), scipp round, rotating-disk spec (validated by simulation). Three open known findings (duplicates across pulses, sub-harmonic expansion, overlap across top-dead-centre) and one fixed (mixed units) in known_findings.json; slit-overlap clause: bounded grid only.')
 NA = {}
 checks = []
 for p in props:
